@@ -311,6 +311,38 @@ pub fn c20(opts: &Opts, out: &mut Out) {
             let (hits, freed) = alloc::disarm();
             report(out, "drop:witness", &key, &hits, freed, &mut total_freed);
         }
+        // spare capacity that HOLDS secrets: the caller derived six blinding factors and kept the first `d` (`truncate`,
+        // `pop`): the bytes beyond the length are still there, and the owning object must wipe its whole buffer
+        if d < 6 {
+            let all_six: Vec<Scalar> = (0..6).map(|_| Scalar::random(&mut rng)).collect();
+            for how in ["truncate", "pop"] {
+                // (the vector itself is handed over — a clone would have no spare capacity)
+                let cut = |how: &str| -> Vec<Scalar> {
+                    let mut v = all_six.clone();
+                    match how {
+                        "truncate" => v.truncate(d),
+                        _ => {
+                            while v.len() > d {
+                                v.pop();
+                            }
+                        },
+                    }
+                    v
+                };
+                alloc::clear();
+                for s in &all_six {
+                    alloc::register(s.as_bytes(), 0);
+                }
+                let op = CommitmentOpening::new(9, cut(how));
+                let mk = ExtendedMask::assign(rrun::deg(d), cut(how));
+                alloc::arm();
+                drop(op);
+                drop(mk);
+                let (hits, freed) = alloc::disarm();
+                // (the harness's own `all_six` is still alive: only blocks released by the drops are looked at)
+                report(out, "drop:opening+mask", &format!("{} after {} from six factors", key, how), &hits, freed, &mut total_freed);
+            }
+        }
         classes.insert((d, 0, 50, false));
     }
     // prover calls that FAIL: whatever the prover copied out of the witness before it gave up must be wiped as well
